@@ -320,6 +320,9 @@ class Schedule(Strategy):
                 self.bat_power_for_vehicles, total_bat_power_remaining)
             remaining_power_on_schedule = (gc.target - gc.get_current_load()
                                            + available_bat_power_for_current_TS)
+            # don't exceed GC limit
+            remaining_power_on_schedule = min(remaining_power_on_schedule,
+                                              gc.cur_max_power - gc.get_current_load())
             # iteration counter to determine whether each vehicle got a chance to charge
             i = 0
             # power offered to a vehicle in its last unsuccessful try
@@ -458,7 +461,7 @@ class Schedule(Strategy):
             # calculate power to charge / discharge
             min_power = 0
             if charge_now:
-                max_power = max(0, gc.target - gc.get_current_load())
+                max_power = max(0, min(gc.target, gc.cur_max_power) - gc.get_current_load())
             else:
                 max_power = max(0, abs(gc.target - gc.get_current_load()))
             max_power = min(cs.max_power, max_power)
